@@ -259,6 +259,7 @@ def run(ctx, sess):
     ctx.rule('C02.12', 'summaries stored in double are consumed in double: in the reader no value loaded from a 64-bit summary (an entry of jls_fsr_f64_summary_s, or an element behind a pointer to double) is converted to float - min, max and mean of 32-bit integer signals need more than 24 bits')
     ctx.rule('C02.13', 'summaries of wide types are stored in double: evaluated for every accepted data type and several fixed-point positions, the summary entry width the writer chooses is 64 bits for every integer type of 32 bits or more and for f64 (an f32 entry holds 24 bits: min and max of such samples would be rounded), and it does not depend on the fixed-point position')
     ctx.rule('C02.14', 'level-0 statistics are computed from the block just fetched: the conversion of the read buffer to double is not skipped on the word of the cached chunk descriptor (chunk_cur) - a block that was left out is rebuilt into the read buffer without a chunk being read, so chunk_cur still names the block before it')
+    ctx.rule('C02.15', 'level-0 entries of a constant block come from the summary of that block: the level-1 cache of the sample reader is marked valid only after both chunks were read (shared with C04.9)')
     ctx.rule('C02.5', 'shared: non-finite values are skipped at every level (C09.4); accumulator algebra of statistics.c - alias safety, empty operands, extremes, non-negative variance, no division by a zero count (C20.1-C20.5); the summary payload length covers every entry of either width (C05.11); the level-0 scratch is filled only up to its allocated length (C10.23)')
     columns_rule(ctx, P, 'C02.1')
     extremes_rule(ctx, P, 'C02.2')
@@ -280,6 +281,8 @@ def run(ctx, sess):
     conversion_fresh_rule(ctx, P, 'C02.14')
     from . import c16 as _c16
     relay(ctx, sess, _c16.run, {'C16.7': 'C02.11'}, minimum=1)
+    from . import c04 as _c04x
+    relay(ctx, sess, _c04x.run, {'C04.9': 'C02.15'}, only_functions=('jls_core_rd_fsr_level1', 'jls_core_rd_fsr_data0'), minimum=1)
     relay(ctx, sess, _c10.run, {'C10.28': 'C02.9'}, only_functions=('fsr_statistics', 'jls_core_fsr_statistics', 'rd_stats_chunk'), minimum=1)
     from . import c15 as _c15
     relay(ctx, sess, _c15.run, {'C15.10': 'C02.5', 'C15.12': 'C02.5'}, minimum=1)
